@@ -15,3 +15,22 @@ def noop():
 
 def keyed(k, v=0, w=0):
     return (k, v, w)
+
+
+# --- C15: signatures for call-identity spellings and worker-side echo -------------------------
+RECEIVED = []  # worker-side kwargs handed to the harness (stepping mode runs bodies in-process)
+
+
+def sig_pos(a, b=2, c="c"):
+    RECEIVED.append({"a": a, "b": b, "c": c})
+    return [a, b, c]
+
+
+def sig_kwonly(a, *, k=1, m=None):
+    RECEIVED.append({"a": a, "k": k, "m": m})
+    return {"a": a, "k": k, "m": m}
+
+
+def echo_value(v, pad=None):
+    RECEIVED.append({"v": v, "pad": pad})
+    return v
